@@ -735,14 +735,16 @@ class Povm(QOperation):
                 eigenvals, eigenvecs = np.linalg.eigh(matrix)
                 spectral_decomp = dict()
                 eigenval_prev = None
-                for eigenval, eigenvec in zip(eigenvals, eigenvecs):
-                    if eigenval_prev == eigenval:
-                        P = np.dot(np.array([eigenvec]).T, np.array([eigenvec]))
-                        spectral_decomp[eigenval].append(P)
+                # eigenvectors are the COLUMNS of eigenvecs; P = |v><v|
+                for eigenval, eigenvec in zip(eigenvals, eigenvecs.T):
+                    P = np.outer(eigenvec, eigenvec.conjugate())
+                    if eigenval_prev is not None and np.isclose(
+                        eigenval_prev, eigenval, rtol=0.0, atol=Settings.get_atol()
+                    ):
+                        spectral_decomp[eigenval_prev].append(P)
                     else:
-                        P = np.dot(np.array([eigenvec]).T, np.array([eigenvec]))
                         spectral_decomp[eigenval] = [P]
-                    eigenval_prev = eigenval
+                        eigenval_prev = eigenval
 
                 hs_cb = None
                 for eigenval, Ps in spectral_decomp.items():
